@@ -12,6 +12,8 @@ Also decided: the v2 transfer-fee wrapping keeps the charged input on the input 
 re-decided here);
 Also decided: update_after_swap performs all its stores on every path; compute_swap and the loop contain no narrowing
 integer cast (a total fee rate above u16 reaches the step whole).
+Also decided: the swap wrappers apply what the loop computed on every successful path (pool update and both token movements); no update is
+made to a copy of the state and dropped.
 Not decided: the identity summed over multi-step swaps with numbers."""
 from analysis import cfg, atoms as A, preach, writes, accounts as ACC
 from analysis.ir import callee_path, AnchorMissing
